@@ -282,6 +282,9 @@ func ProvablyNonNil(v ssa.Value, known func(ssa.Value) bool) bool {
 			case "github.com/pkg/errors.New", "github.com/pkg/errors.Errorf", "errors.New", "fmt.Errorf":
 				return true
 			case "github.com/pkg/errors.Wrap", "github.com/pkg/errors.Wrapf", "github.com/pkg/errors.WithStack", "github.com/pkg/errors.WithMessage", "github.com/pkg/errors.WithMessagef":
+				if known(x.Call.Args[0]) {
+					return true // the wrapped value itself was tested
+				}
 				for _, o := range Origins(x.Call.Args[0]) {
 					if !rec(o, d+1) {
 						return false
@@ -347,6 +350,13 @@ func c17ForwarderPublisher(c *Check) {
 				}
 			}
 			c.Report(!bad, P+".O2", "WRAP-ERROR-RETURNED", fn, w.Pos(), k, "a wrapping error aborts the publish with a non-nil error")
+		}
+	}
+	// an envelope is only made for a destination the forwarder can deliver to: the wrap function succeeds only past the
+	// envelope validation (directly, or through the in-package constructor it calls)
+	for _, w := range wraps {
+		if W := CalleeFn(w.Common()); W != nil {
+			c.Report(succeedsOnlyIfValidated(W, 2), P+".O2", "WRAP-SUCCEEDS-ONLY-IF-VALID", W, W.Pos(), "wrap function", "every successful return of the wrap function lies behind the edge on which the envelope validation (non-empty destination topic) passed: Publish to an empty topic fails at the caller instead of producing an envelope the forwarder can only drop or nack forever")
 		}
 	}
 	wrapRes := ResultOfAny(wraps, 0)
@@ -707,8 +717,30 @@ func passthroughClosure(fn *ssa.Function) bool {
 	return len(CallsIn(fn)) == 0
 }
 
+// relayRouterBare: the component registers nothing on its private router besides its pass-through handlers — a middleware,
+// plugin or decorator of its own (InstantAck, a retry, a filter) changes when the source message is acked or what is relayed.
+func relayRouterBare(c *Check, id, rel, what string) {
+	nreg := 0
+	fs := c.P.SrcFuncs(rel)
+	for _, f := range fs {
+		for _, cl := range CallsIn(f) {
+			switch CalleeName(cl) {
+			case "(*" + msgPkg + ".Router).AddMiddleware", "(*" + msgPkg + ".Handler).AddMiddleware", "(*" + msgPkg + ".Router).AddPlugin",
+				"(*" + msgPkg + ".Router).AddPublisherDecorators", "(*" + msgPkg + ".Router).AddSubscriberDecorators":
+				nreg++
+				c.Report(false, id, "RELAY-ROUTER-HAS-ONLY-THE-RELAY-HANDLERS", f, cl.Pos(), CalleeName(cl), "the "+what+" puts no middleware, plugin or decorator of its own on its private router: the source message is acked exactly when the router's own publish-then-ack logic says so")
+			}
+		}
+	}
+	if len(fs) > 0 {
+		c.Report(true, id, "RELAY-ROUTER-REGISTRATIONS-SCANNED", fs[0], fs[0].Pos(), "package "+rel, fmt.Sprintf("%d middleware / plugin / decorator registrations by the %s itself", nreg, what))
+	}
+}
+
 func c17FanIn(c *Check) {
 	P := "C17"
+	relayRouterBare(c, P+".O2", "components/fanin", "fan-in")
+	relayRouterBare(c, P+".O2", "pubsub/gochannel", "fan-out")
 	fn := c.P.Func("components/fanin", "NewFanIn")
 	if !c.Use(P+".O2", fn, "fanin.NewFanIn") {
 		return
@@ -1142,4 +1174,43 @@ func globalFuncValue(p *Prog, v ssa.Value) *ssa.Function {
 		return nil
 	}
 	return fn
+}
+
+// succeedsOnlyIfValidated: every return of F with a nil error is guarded by the OK edge of a validation — an inline
+// test of a non-empty string field, a call of an in-package error-returning method without parameters (validate), or a call
+// of an in-package function for which the same holds (depth levels down).
+func succeedsOnlyIfValidated(F *ssa.Function, depth int) bool {
+	if F == nil || len(F.Blocks) == 0 {
+		return false
+	}
+	guards := append([]Edge{}, destNonEmptyEdges(F)...)
+	for _, cl := range CallsIn(F) {
+		cal := CalleeFn(cl.Common())
+		if cal == nil || cal.Pkg != F.Pkg || cal == F {
+			continue
+		}
+		rs := cal.Signature.Results()
+		if rs.Len() == 0 || !IsErrorType(rs.At(rs.Len()-1).Type()) {
+			continue
+		}
+		isV := cal.Signature.Recv() != nil && cal.Signature.Params().Len() == 0 && rs.Len() == 1 && len(destNonEmptyEdges(cal)) > 0
+		if isV || (depth > 0 && succeedsOnlyIfValidated(cal, depth-1)) {
+			ok, _ := NilEdges(F, ResultOfAny([]ssa.CallInstruction{cl}, rs.Len()-1))
+			guards = append(guards, ok...)
+		}
+	}
+	if len(guards) == 0 {
+		return false
+	}
+	n := 0
+	for _, r := range Returns(F) {
+		if len(r.Results) == 0 || !RetNil(r, len(r.Results)-1) {
+			continue
+		}
+		n++
+		if !GuardedBy(F, r, guards) {
+			return false
+		}
+	}
+	return n > 0
 }
